@@ -463,12 +463,24 @@ func (h *c02H) basicTier() c02BasicTier {
 	return c02BasicTier{Full: []int{c02Std}, Later: c02Core, BoundEnv: 1}
 }
 
+// basicTierFault is the (smaller) tier used when the final location is in a rename-fault state: those states differ
+// from "absent" only in executions that reach the final rename, so one alphabet level less is spent on them.
+func (h *c02H) basicTierFault() c02BasicTier {
+	if h.c.Thorough() {
+		return c02BasicTier{Full: []int{c02Std}, Later: c02Core, BoundEnv: 1}
+	}
+	return c02BasicTier{Full: []int{c02Core}, Later: c02Core, BoundEnv: 1}
+}
+
 func (h *c02H) runBasic(x *vx.X) vx.Result {
 	tier := h.basicTier()
 	pstates := h.partStates()
 	pi := x.In(len(pstates))
 	fi := x.In(len(c02FinalStates))
 	ps, fstate := pstates[pi], c02FinalStates[fi]
+	if fstate.Fault != "" {
+		tier = h.basicTierFault()
+	}
 	cs := h.pooledCase()
 	defer h.release(cs)
 	cs.install(ps, fstate)
@@ -575,6 +587,11 @@ func init() {
 				full = append(full, c02LevelNames[l])
 			}
 			h.c.Bounds["basic.requests_enumerated_in_full(alphabet per request)"] = full
+			var fullF []string
+			for _, l := range h.basicTierFault().Full {
+				fullF = append(fullF, c02LevelNames[l])
+			}
+			h.c.Bounds["basic.requests_enumerated_in_full_for_rename_fault_final_states"] = fullF
 			h.c.Bounds["basic.later_requests"] = fmt.Sprintf("alphabet %s, at most %d non-nominal answer(s) per case", c02LevelNames[tier.Later], tier.BoundEnv)
 			sizes := map[string][]int{}
 			for l, n := range c02LevelNames {
@@ -586,7 +603,11 @@ func init() {
 				pn = append(pn, p.Name)
 			}
 			h.c.Bounds["part_states"] = pn
-			h.c.Bounds["final_states"] = len(c02FinalStates)
+			var fn []string
+			for _, f := range c02FinalStates {
+				fn = append(fn, f.Name)
+			}
+			h.c.Bounds["final_states"] = fn
 			h.c.Bounds["object_bytes"] = c02Size
 			e := &vx.Explorer{Name: "basic", BoundEnv: tier.BoundEnv, BoundSch: 0, BoundSum: -1, Exec: exec, Deadline: h.deadline, Seed: h.c.Seed}
 			return e.Explore()
